@@ -1,4 +1,6 @@
 """C02 - islands are exactly the seeded, flood-thresholded 8-connected pixel groups (source_finder.find_islands)"""
+import math
+
 import numpy as np
 from hypothesis import strategies as st
 
@@ -14,8 +16,13 @@ RULE = ("Hypothesis: images 1x1..24x24 written as a fill level plus a sparse lis
         "ties are exact; im = bkg + sign*level*rms with bkg in {0, const, -flood*rms, -mid*rms (gives pixel values of exactly "
         "0.0), ramp} and rms in {1, 2, 0.5, smooth positive map}. Oracle: pure-Python 8-connected flood fill on the same "
         "IEEE expression abs(im-bkg)/rms. Non-trivial = >= 2 oracle groups with >= 1 rejected by the seed rule, or a pixel "
-        "exactly at a threshold, or two groups with intersecting bounding boxes; distinct = distinct image/threshold case.")
-ASSUMPTIONS = ["rms > 0 everywhere; 0 < flood <= seed", "images up to 24x24 (the rule is local)"]
+        "exactly at a threshold, or two groups with intersecting bounding boxes; distinct = distinct image/threshold case. "
+        "'e2e': messy 128 px fields (vlib/fields.py) run through the blind finder; every component must carry the number of a "
+        "seeded group (raster order) and lie within the fit's position bound of that group's bounding box.")
+ASSUMPTIONS = ["rms > 0 everywhere; 0 < flood <= seed", "images up to 24x24 (the rule is local)",
+               "end-to-end clause: a component belongs to island k of the raster-ordered seeded groups and lies within half a beam "
+               "diagonal (+1 px) of that group's bounding box (the fit's documented position bound)"]
+CASE_TIMEOUT_S = 300
 
 EPS = 2.0 ** -10
 THRESH = [(4.0, 5.0), (3.0, 6.0), (10.0, 10.0), (4.5, 4.5), (2.25, 7.5), (4.0, 4.0 + EPS)]
@@ -184,7 +191,65 @@ def finish(res, c, snr, kept, rejected, flood, seed):
     return res
 
 
+# ------------------------------------------------------------------- end to end
+def check_e2e(c):
+    """no reported component originates from a pixel group that fails the rule: every component of a blind run carries
+    the number of a seeded, flood-thresholded group and lies on (or within a beam of) that group's bounding box"""
+    import os
+    import shutil
+    import tempfile
+    from AegeanTools.models import ComponentSource
+    from AegeanTools.source_finder import SourceFinder
+    from vlib import fields, skyimg
+    res = Res()
+    fc = dict(c["field"], rows=min(c["field"]["rows"], 128), cols=min(c["field"]["cols"], 128), nsrc=min(c["field"]["nsrc"], 12),
+              size_max=min(c["field"]["size_max"], 1.5))
+    F = fields.build_field(fc)
+    seed, flood = c["clip"]
+    snr = np.abs(F["img"]) / 1.0
+    kept, rejected = refs.bfs_islands(snr, flood, seed)
+    kept = sorted(kept, key=lambda g: min(g))
+    d = tempfile.mkdtemp(prefix="c02e_")
+    try:
+        path = os.path.join(d, "im.fits")
+        skyimg.write_fits(path, F["img"], F["hdr"])
+        out = SourceFinder().find_sources_in_image(path, rms=1.0, bkg=0.0, innerclip=seed, outerclip=flood, docov=False, cores=1)
+    finally:
+        shutil.rmtree(d, ignore_errors=True)
+    comps = [s for s in out if isinstance(s, ComponentSource)]
+    beam_px = fc["beam"][0] * fc["beam"][1]
+    for s in comps:
+        k = int(s.island) - 1
+        if not (0 <= k < len(kept)):
+            res.bad("component-without-island", "component (%d,%d) carries an island number but only %d seeded groups exist" % (
+                s.island, s.source, len(kept)))
+            break
+        if not np.isfinite(s.ra):
+            continue
+        p1, p2 = F["w"].sky2pix(s.ra, s.dec)
+        r, cc = float(p2) - 1, float(p1) - 1
+        rs = [p[0] for p in kept[k]]
+        cs = [p[1] for p in kept[k]]
+        m = 0.5 * math.hypot(beam_px, fc["beam"][0]) + 1.0       # the documented position bound: half the beam diagonal
+        if not (min(rs) - m <= r <= max(rs) + m and min(cs) - m <= cc <= max(cs) + m):
+            res.bad("component-outside-its-island", "component (%d,%d) at pixel (%.1f, %.1f) is not on island %d (rows %d..%d, "
+                    "cols %d..%d)" % (s.island, s.source, r, cc, s.island, min(rs), max(rs), min(cs), max(cs)))
+            break
+    if len(set(int(s.island) for s in comps)) > len(kept):
+        res.bad("more-islands-than-groups", "%d islands have components, %d seeded groups exist" % (
+            len(set(int(s.island) for s in comps)), len(kept)))
+    res.nontrivial = bool(len(kept) >= 2 and rejected)
+    res.label("e2e")
+    return res
+
+
+def e2e_strategy():
+    from vlib import fields
+    return st.fixed_dictionaries({"field": fields.field_strategy, "clip": st.sampled_from([(5.0, 4.0), (6.0, 3.0), (10.0, 10.0)])})
+
+
 TESTS = {
+    "e2e": {"strategy": lambda tier: e2e_strategy(), "check": check_e2e, "n": {"quick": 48, "thorough": 1500}},
     "islands": {"strategy": lambda tier: case_strategy, "check": check_case,
                 "n": {"quick": 6000, "thorough": 200000}},
 }
